@@ -91,6 +91,7 @@ type Ctx struct {
 	Res    ShardResult
 
 	idx       int64
+	caseSeq   atomic.Int64 // bumped at the start of every case: read by the livelock watch
 	distinct  map[uint64]struct{}
 	maxSample int
 	maxViol   int
@@ -163,6 +164,7 @@ func (c *Ctx) Exec(cs any) { c.exec(cs) }
 
 func (c *Ctx) exec(cs any) {
 	c.cur = cs
+	c.caseSeq.Add(1)
 
 	if c.paranoid != "" {
 		b, _ := json.Marshal(cs)
